@@ -193,6 +193,10 @@ int reb_get_rootbox_for_particle(const struct reb_simulation* const r, struct re
 	int i = ((int)floor((pt.x + r->boxsize.x/2.)/r->root_size)+r->N_root_x)%r->N_root_x;
 	int j = ((int)floor((pt.y + r->boxsize.y/2.)/r->root_size)+r->N_root_y)%r->N_root_y;
 	int k = ((int)floor((pt.z + r->boxsize.z/2.)/r->root_size)+r->N_root_z)%r->N_root_z;
+	// The box is closed: a particle exactly on an upper face belongs to the last root box, not (by the modulo) to the first.
+	if (pt.x == r->boxsize.x/2.) i = r->N_root_x-1;
+	if (pt.y == r->boxsize.y/2.) j = r->N_root_y-1;
+	if (pt.z == r->boxsize.z/2.) k = r->N_root_z-1;
 	int index = (k*r->N_root_y+j)*r->N_root_x+i;
 	return index;
 }
